@@ -1,6 +1,7 @@
 package raft
 
 import (
+	"github.com/lni/dragonboat/v4/internal/server"
 	pb "github.com/lni/dragonboat/v4/raftpb"
 )
 
@@ -267,5 +268,60 @@ func VHarness_C17_HigherTerm() {
 		vReach("stepdown")
 	}
 	vAssert(r.vote == NoNode, "P4-vote-cleared-with-new-term")
+	vReach("done")
+}
+
+// C17 ("... including after rate limiting ... requests complete"): a replica
+// of any non-leader kind whose in-memory log once exceeded MaxInMemLogSize and
+// has drained since leaves the rate-limited state within a bounded number of
+// ticks, and tells the leader it knows about that its in-memory log is empty -
+// full members, non-voting members and witnesses alike (a replica that stays
+// rate limited refuses every proposal made through it).
+// vcheck: reach=follower,nonvoting,witness,recovered,feedback,done workers=8 steps=2000000
+func VHarness_C17_RateLimitRecovers() {
+	r, c := vRaft(vRaftOpts{pairs: [][2]uint64{{vS3, 1}, {vS4, 4}, {vS3w, 3}}, log: vLogOpts{maxWin: 1, noAppliedTo: true, allSaved: true},
+		roles: []State{follower}, noReached: true})
+	switch r.state {
+	case follower:
+		vReach("follower")
+	case nonVoting:
+		vReach("nonvoting")
+	case witness:
+		vReach("witness")
+	}
+	// rate limiter enabled, currently limited, nothing left in memory
+	rl := server.NewInMemRateLimiter(1000)
+	r.rl, r.log.inmem.rl = rl, rl
+	rl.Set(2000)
+	for i := 0; i < 3; i++ {
+		rl.Tick()
+	}
+	vAssert(rl.RateLimited(), "setup-limited")
+	rl.Set(0)
+	// a known leader, and elections far away (this lemma is about the limiter)
+	leaderID := uint64(2)
+	r.leaderID = leaderID
+	r.randomizedElectionTimeout = 1000
+	r.electionTimeout = 3
+	r.tickCount = uint64(vChoose("tickPhase", 3)) // phase of the rate-limit check (every electionTimeout ticks)
+	r.electionTick = 0
+	peer := Peer{raft: r}
+	feedback := false
+	n := int((server.ChangeTickThreashold + 2) * r.electionTimeout)
+	before := vRecord(r)
+	for i := 0; i < n; i++ {
+		r.msgs = r.msgs[:0]
+		vAssert(peer.Tick() == nil, "noerr")
+		for j := range r.msgs {
+			if r.msgs[j].Type == pb.RateLimit && r.msgs[j].To == leaderID {
+				feedback = true
+			}
+		}
+	}
+	vFrame(before, r, c, "")
+	vAssert(!rl.RateLimited(), "P5-drained-replica-leaves-the-rate-limited-state")
+	vReach("recovered")
+	vAssert(feedback, "P5-leader-is-told-about-the-in-memory-log-size")
+	vReach("feedback")
 	vReach("done")
 }
